@@ -24,6 +24,8 @@ pub fn pool_case(data: &[u8]) -> Option<PoolCase> {
         ready_hides_close: false,
         build_path: 0,
         fused_attempts: false,
+        coarse_key: false,
+        built_on: 0,
     };
     let mut ops = vec![];
     while !u.is_empty() && ops.len() < 160 {
